@@ -1,14 +1,14 @@
 (* DeterminismTc.v — C03 for accepted closed programs with the premises `teq_ok` and
    `tc_annotations_typed` DISCHARGED (a9: proofs/RtTcBisim.v `teq_rt_laws`, proofs/RtTcSoundTop.v
    `tc_annotations_typed_rt`): per-program forms of the theorems of DeterminismTyped.v / TopoReach.v,
-   then instantiated for accepted programs (premises prog_syn_ok, rt_syn_ok: computable) and for
+   then instantiated for accepted programs (premises prog_syn_ok, raw_ok: computable) and for
    PARSED programs (prog_syn_ok is a theorem: proofs/ParseSynOk.v). *)
 From stdpp Require Import gmap strings sorting.
 Require Import Grits.Base Grits.ModeDefs Grits.Modes Grits.STypes Grits.Forms Grits.Subst Grits.TcDeps Grits.Expand
                Grits.Tc Grits.TcTop Grits.spec.SynOk Grits.Runtime Grits.RuntimeFootprint
                Grits.spec.RtTyping Grits.spec.Topo Grits.proofs.RtSubst Grits.proofs.StepErrors Grits.proofs.RtSafety
                Grits.proofs.RtInit Grits.proofs.RtProgress Grits.proofs.RtTheorems Grits.proofs.RtStaticCheck
-               Grits.proofs.RtTcSyn Grits.proofs.RtTcBisim Grits.proofs.ParseSynOk Grits.proofs.RtTheoremsTc.
+               Grits.proofs.RtTcSyn Grits.proofs.RtTcBisim Grits.proofs.ParseSynOk Grits.proofs.ParseRaw Grits.proofs.RtTheoremsTc.
 Require Import Grits.proofs.RuntimeFacts Grits.proofs.Diamond Grits.proofs.Determinism Grits.proofs.AsyncSync
                Grits.proofs.DeterminismTyped Grits.proofs.TopoLin Grits.proofs.TopoStep Grits.proofs.TopoReach.
 
@@ -83,7 +83,7 @@ End OneProgram.
 (* C03, every accepted closed program, both polarized modes.  Premises: the two computable conditions
    on the parsed program, and Topo along the runs *)
 Theorem determinism_tc p p' md pick1 pick2 f1 f2 t1 :
-  typecheck p = Accept p' -> in_fragment p' -> prog_syn_ok p = true -> rt_syn_ok p = true ->
+  typecheck p = Accept p' -> in_fragment p' -> prog_syn_ok p = true -> raw_ok p = true ->
   topo_runs p' -> is_np md = false ->
   exec_run f1 pick1 md (p_types p') (p_funs p') (init_config p') = RQuiescent t1 -> (f1 <= f2)%nat ->
   exists t2, exec_run f2 pick2 md (p_types p') (p_funs p') (init_config p') = RQuiescent t2 /\
@@ -93,7 +93,7 @@ Proof.
 Qed.
 
 Theorem async_sync_agree_tc p p' pick1 f1 t1 :
-  typecheck p = Accept p' -> in_fragment p' -> prog_syn_ok p = true -> rt_syn_ok p = true ->
+  typecheck p = Accept p' -> in_fragment p' -> prog_syn_ok p = true -> raw_ok p = true ->
   topo_runs p' ->
   exec_run f1 pick1 Sync (p_types p') (p_funs p') (init_config p') = RQuiescent t1 ->
   exists n, forall pick2 f2, (n < f2)%nat ->
@@ -104,7 +104,7 @@ Qed.
 
 (* the core fragment: init_linear instead of Topo along the runs *)
 Theorem determinism_core_tc p p' md pick1 pick2 f1 f2 t1 :
-  typecheck p = Accept p' -> in_fragment p' -> prog_syn_ok p = true -> rt_syn_ok p = true ->
+  typecheck p = Accept p' -> in_fragment p' -> prog_syn_ok p = true -> raw_ok p = true ->
   init_linear p' -> is_np md = false ->
   exec_run f1 pick1 md (p_types p') (p_funs p') (init_config p') = RQuiescent t1 -> (f1 <= f2)%nat ->
   exists t2, exec_run f2 pick2 md (p_types p') (p_funs p') (init_config p') = RQuiescent t2 /\
@@ -114,39 +114,40 @@ Proof.
 Qed.
 
 Theorem topo_runs_core_tc p p' :
-  typecheck p = Accept p' -> in_fragment p' -> prog_syn_ok p = true -> rt_syn_ok p = true ->
+  typecheck p = Accept p' -> in_fragment p' -> prog_syn_ok p = true -> raw_ok p = true ->
   init_linear p' -> topo_runs p'.
 Proof.
   intros Ha Hf PS RS. exact (topo_runs_core_one _ p' (teq_rt_laws _) (tc_annotations_typed_rt p p' Ha PS RS Hf)).
 Qed.
 
-(* ------------------------------------------------------------------ parsed programs: rt_syn_ok and init_linear are what is left *)
+(* ------------------------------------------------------------------ parsed programs (prog_syn_ok, raw_ok are theorems: ParseSynOk, ParseRaw):
+   parse ok, accepted, closed, and init_linear (resp. topo_runs) are what is left *)
 Theorem determinism_core_parsed txt p p' md pick1 pick2 f1 f2 t1 :
-  parse_string txt = POk p -> typecheck p = Accept p' -> in_fragment p' -> rt_syn_ok p = true ->
+  parse_string txt = POk p -> typecheck p = Accept p' -> in_fragment p' ->
   init_linear p' -> is_np md = false ->
   exec_run f1 pick1 md (p_types p') (p_funs p') (init_config p') = RQuiescent t1 -> (f1 <= f2)%nat ->
   exists t2, exec_run f2 pick2 md (p_types p') (p_funs p') (init_config p') = RQuiescent t2 /\
              cfg_equiv t2 t1 /\ labels t2 ≡ₚ labels t1.
-Proof. intros Hp Ha Hf RS. exact (determinism_core_tc p p' md pick1 pick2 f1 f2 t1 Ha Hf (parse_syn_ok _ _ Hp) RS). Qed.
+Proof. intros Hp Ha Hf. exact (determinism_core_tc p p' md pick1 pick2 f1 f2 t1 Ha Hf (parse_syn_ok _ _ Hp) (parse_raw_ok _ _ Hp)). Qed.
 
 Theorem async_sync_agree_core_parsed txt p p' pick1 f1 t1 :
-  parse_string txt = POk p -> typecheck p = Accept p' -> in_fragment p' -> rt_syn_ok p = true ->
+  parse_string txt = POk p -> typecheck p = Accept p' -> in_fragment p' ->
   init_linear p' ->
   exec_run f1 pick1 Sync (p_types p') (p_funs p') (init_config p') = RQuiescent t1 ->
   exists n, forall pick2 f2, (n < f2)%nat ->
     exists t2, exec_run f2 pick2 Async (p_types p') (p_funs p') (init_config p') = RQuiescent t2 /\ labels t2 ≡ₚ labels t1.
 Proof.
-  intros Hp Ha Hf RS Hi.
+  intros Hp Ha Hf Hi. pose proof (parse_raw_ok _ _ Hp) as RS.
   exact (async_sync_agree_tc p p' pick1 f1 t1 Ha Hf (parse_syn_ok _ _ Hp) RS (topo_runs_core_tc p p' Ha Hf (parse_syn_ok _ _ Hp) RS Hi)).
 Qed.
 
 Theorem determinism_parsed txt p p' md pick1 pick2 f1 f2 t1 :
-  parse_string txt = POk p -> typecheck p = Accept p' -> in_fragment p' -> rt_syn_ok p = true ->
+  parse_string txt = POk p -> typecheck p = Accept p' -> in_fragment p' ->
   topo_runs p' -> is_np md = false ->
   exec_run f1 pick1 md (p_types p') (p_funs p') (init_config p') = RQuiescent t1 -> (f1 <= f2)%nat ->
   exists t2, exec_run f2 pick2 md (p_types p') (p_funs p') (init_config p') = RQuiescent t2 /\
              cfg_equiv t2 t1 /\ labels t2 ≡ₚ labels t1.
-Proof. intros Hp Ha Hf RS. exact (determinism_tc p p' md pick1 pick2 f1 f2 t1 Ha Hf (parse_syn_ok _ _ Hp) RS). Qed.
+Proof. intros Hp Ha Hf. exact (determinism_tc p p' md pick1 pick2 f1 f2 t1 Ha Hf (parse_syn_ok _ _ Hp) (parse_raw_ok _ _ Hp)). Qed.
 
 (* ------------------------------------------------------------------ a complete instance, nothing assumed *)
 Require Import Grits.proofs.InitLinear.
@@ -155,7 +156,7 @@ Require Import Grits.proofs.InitLinear.
 Definition core_premises_text (txt : string) : bool :=
   match parse_string txt with
   | POk p => match typecheck p with
-             | Accept p' => in_fragment_b p' && rt_syn_ok p && init_linear_b p'
+             | Accept p' => in_fragment_b p' && init_linear_b p'
              | _ => false
              end
   | _ => false
@@ -170,7 +171,7 @@ Theorem core_premises_sound txt : core_premises_text txt = true ->
 Proof.
   unfold core_premises_text. destruct (parse_string txt) as [p| | |] eqn:Ep; try discriminate.
   destruct (typecheck p) as [p'| | |] eqn:Et; try discriminate.
-  rewrite !andb_true_iff. intros [[Hf RS] Hi]. apply in_fragment_b_sound in Hf. apply init_linear_b_sound in Hi.
+  rewrite !andb_true_iff. intros [Hf Hi]. apply in_fragment_b_sound in Hf. apply init_linear_b_sound in Hi.
   exists p, p'. split; [done|]. split; [done|]. intros md pick1 pick2 f1 f2 t1 Hnp.
   eapply determinism_core_parsed; eauto.
 Qed.
